@@ -182,6 +182,15 @@ func (c *Ctx) liaBinop(op token.Token, w int, signed bool, x, y string, yT types
 		return r, ""
 	case token.OR:
 		r := c.uf("or", w, signed, x, y)
+		// bits that do not overlap add up: (x has its low k bits clear, 0 <= y < 2^k) => x|y == x+y
+		for _, k := range []int{8, 16, 24, 32} {
+			if k >= w {
+				break
+			}
+			m := pow2(k).String()
+			c.assume(implies(and(eq(sx("mod", x, m), "0"), sx("<=", "0", y), sx("<", y, m)), eq(r, sx("+", x, y))))
+			c.assume(implies(and(eq(sx("mod", y, m), "0"), sx("<=", "0", x), sx("<", x, m)), eq(r, sx("+", x, y))))
+		}
 		if !signed {
 			c.assume(and(sx(">=", r, x), sx(">=", r, y), sx("<=", r, sx("+", x, y))))
 		} else {
